@@ -254,6 +254,13 @@ func (r *run) walker(addOffset int64, nStopVariants int) (reported []visited) {
 			lit := fmt.Sprintf("CWalk %s %s %s %s", tl, rmLit(rm, ids), gal.Bool(fb), obsRanges(rs, err, panicked))
 			idx := ctx.Add("walk", lit, map[string]interface{}{"op": "NodeVisitor.Run", "image": r.im.name, "fallback": fb,
 				"add_offset": addOffset, "stop_variant": variant, "nodes": len(r.gt.all), "reported": len(vis)}, true)
+			if panicked && addOffset < 0 {
+				// rows with a negative adjusted offset are dropped by NameToRangesMap (documented TODO),
+				// the by-count lookup then runs off the end; Node.AddOffset has no user in the suite
+				// and is not part of the property: correspondence only (the model says Panic too)
+				ctx.Count("negative-add-offset-panics")
+				continue
+			}
 			if panicked || err != nil {
 				ctx.OracleFail(idx, fmt.Sprintf("NodeVisitor.Run failed on a parseable image: err=%v panic=%s", err, msg), siteWalker,
 					map[string]interface{}{"image": r.im.name, "fallback": fb})
@@ -407,6 +414,7 @@ func (r *run) checkSelector(what, site string, input map[string]interface{}, mat
 	got, why := r.dataRanges(d, bi)
 	if why == "" && sameRanges(normalise(got), normalise(exp)) {
 		ctx.OracleOK()
+		ctx.Count("oracle-ok:" + what)
 		return
 	}
 	msg := fmt.Sprintf("%s: resolved ranges %s are not the bytes of the selected objects %s %s", what, fmtRanges(normalise(got)), fmtRanges(normalise(exp)), why)
@@ -595,12 +603,21 @@ func (r *run) selectors(reported []visited) {
 			topFVs = append(topFVs, n)
 		}
 	}
-	var nodesLit []string
-	for _, v := range reported {
-		n := r.gt.byFW[v.f]
-		nodesLit = append(nodesLit, gal.Pair(gal.Bool(n != nil && n.isFV), rangeLit(v.r.Offset, v.r.Length)))
+	// the volume pick only ever takes volumes; to keep the cases small the node list holds
+	// every volume the walker reported (known offset or not) and, per query, the other
+	// nodes with a known offset that cover the first byte of the query
+	nodesFor := func(q pkgbytes.Range) string {
+		var nodesLit []string
+		for _, v := range reported {
+			n := r.gt.byFW[v.f]
+			isFV := n != nil && n.isFV
+			if !isFV && !(v.r.Offset != math.MaxUint64 && v.r.Offset <= q.Offset && q.Offset-v.r.Offset < v.r.Length) {
+				continue
+			}
+			nodesLit = append(nodesLit, gal.Pair(gal.Bool(isFV), rangeLit(v.r.Offset, v.r.Length)))
+		}
+		return gal.List(nodesLit)
 	}
-	nodesL := gal.List(nodesLit)
 	type q struct {
 		rg   pkgbytes.Range
 		in   *gnode // top-level volume that contains it, nil if none
@@ -632,7 +649,7 @@ func (r *run) selectors(reported []visited) {
 		if err != nil {
 			ctx.OracleFail(-1, "GetByRange failed: "+err.Error(), "pkg/uefi/ffs/node_get_by_range.go", in)
 		} else {
-			found := x.in == nil
+			found := x.in == nil || x.in.name == "" // a volume without a name has no known offset
 			var bad, known []string
 			for _, nd := range nodes {
 				n := r.gt.byFW[nd.Firmware]
@@ -676,7 +693,7 @@ func (r *run) selectors(reported []visited) {
 				got = append(got, d.References[i].Ranges...)
 			}
 		}
-		lit := fmt.Sprintf("CVolumeOf %s %s %s %s", gal.U(r.size), nodesL, rangeLit(x.rg.Offset, x.rg.Length), obsRanges(got, derr, p))
+		lit := fmt.Sprintf("CVolumeOf %s %s %s %s", gal.U(r.size), nodesFor(x.rg), rangeLit(x.rg.Offset, x.rg.Length), obsRanges(got, derr, p))
 		idx := ctx.Add("volume-of", lit, map[string]interface{}{"op": "VolumeOf(MemRanges)", "image": r.im.name, "range": in["range"], "kind": x.kind}, x.in != nil)
 		switch {
 		case p:
@@ -839,6 +856,7 @@ func (r *run) intel() {
 			}
 		}
 		ctx.OracleOK()
+		ctx.Count("oracle-ok:" + what)
 	}
 	for i, e := range entries {
 		if seenType[e.typ] || i == 0 {
@@ -1009,6 +1027,7 @@ func (r *run) pcr0data(st *types.State, bi *biosimage.BIOSImage, acc *intelbiosi
 				continue
 			}
 			ctx.OracleOK()
+			ctx.Count("oracle-ok:PCR0_DATA " + label[i])
 		}
 	}
 	if n == 0 {
